@@ -5,8 +5,9 @@
     configuration/static/parser.py   community / extended-community / large-community: every `add` re-sorts
                                      by packed bytes; large communities drop duplicates                  → `normAttr`
     bgp/neighbor/session.py          `ip_self` (next-hop self)                                        → `ipSelf`
-    bgp/message/open/capability/negotiated.py  `_negotiate`: local_as = the 2-byte field of the sent OPEN,
-                                     peer_as corrected from the ASN4 capability only when asn4         → `negLocalAs`, `negPeerAs`
+    bgp/message/open/capability/negotiated.py  `_negotiate`: local_as = the AS of the ASN4 capability we sent, else
+                                     the 2-byte field of our OPEN; peer_as corrected from the peer's ASN4
+                                     capability only when asn4 was negotiated                          → `negLocalAs`, `negPeerAs`
     update/attribute/attribute.py    `Attribute._attribute` (header, extended length, empty optional)  → `hdr`
     update/attribute/collection.py   `AttributeCollection.pack_attribute` (sorted codes, defaults
                                      ORIGIN / AS_PATH / LOCAL_PREF, skip rules NEXT_HOP / LOCAL_PREF) → `packCode`, `attrBytes`
@@ -16,8 +17,11 @@
     update/nlri/collection.py        `_encode_nexthop`, `_attribute_header`, `packed_reach_attributes` → `mpNextHop`, `mpReach`
     update/collection.py             `UpdateCollection.messages` for one announce (classic / MP split,
                                      size checks)                                                      → `encodeExa`
-  Constants (attribute flags, 255, AS_TRANS, the SAFIs sent in the classic NLRI field, RD sizes) come
-  from `Generated/ExaEncTable.lean`, re-extracted from /repo on every run.
+  Constants (attribute flags, 255, AS_TRANS, the SAFIs sent in the classic NLRI field, RD sizes) and two
+  structural facts read from the AST (is the default AS_PATH built with `asn4=True`; does `messages()`
+  consult `negotiated.nexthop`) come from `Generated/ExaEncTable.lean`, re-extracted from /repo on every run.
+  The model follows /repo HEAD including the repairs 000775c (F4), eb54ac4 (default AS_PATH of a 4-octet AS),
+  b4bc906 (IPv4 multicast in MP_REACH) and 9c66abf (a prefix that does not fit is left out, nothing raises).
 
   Not modelled: attributes other than the eleven keywords of `ReqAttr` (generic `attribute [..]`, aigp,
   bgp-prefix-sid: see C15), families other than AFI 1/2 × SAFI 1/2/4/128, `split`, several routes in
